@@ -1,7 +1,10 @@
 #!/bin/bash
-# background sweep: the thorough exploration of every property (no clean rebuild / coqchk), evidence under build/
-cd /verif
-export AGV_DEEP_ONLY=1 AGV_EVIDENCE_DIR=/verif/build/deep-evidence
+# background sweep: the thorough exploration of every property (no clean rebuild / coqchk), evidence under build/.
+# With MV=/path/to/verif-clone MR=/path/to/repo-worktree it runs on scratch copies, so that work in /verif and /repo
+# (building, applying seeds, committing fixes) cannot disturb it -- and it cannot disturb them.
+MV=${MV:-/verif}; MR=${MR:-/repo}
+cd $MV
+export AG_REPO=$MR AGV_DEEP_ONLY=1 AGV_EVIDENCE_DIR=$MV/build/deep-evidence
 for p in "$@"; do
   /usr/bin/time -f "$p %es" timeout 7200 bin/agv check $p --tier thorough 2>&1 | grep -E "^(VIOLATION|KNOWN|C[0-9]+ )|thorough:|[0-9]s$" | cut -c1-400
 done
